@@ -225,6 +225,12 @@ pub trait InPort {
     fn data(&self) -> Data;
     fn tags(&self) -> &[InTag];
     fn set_tags(&mut self, t: Vec<InTag>);
+    /// The harness may act on this port as the neighbouring block from inside
+    /// a yield point of the block under test (plain stream ends only: no port
+    /// that shares a block-internal lock).
+    fn neighbour_may_act(&self) -> bool {
+        false
+    }
 }
 pub trait OutPort {
     fn drain(&mut self, j: usize) -> usize;
@@ -239,6 +245,10 @@ pub trait OutPort {
     fn tags(&self) -> &[OutTag];
     fn drop_reader(&mut self);
     fn reader_dropped(&self) -> bool;
+    /// See `InPort::neighbour_may_act`.
+    fn neighbour_may_act(&self) -> bool {
+        false
+    }
 }
 
 pub struct CopyIn<T: Samp> {
@@ -274,6 +284,9 @@ impl<T: Samp> CopyIn<T> {
     }
 }
 impl<T: Samp> InPort for CopyIn<T> {
+    fn neighbour_may_act(&self) -> bool {
+        true
+    }
     fn feed(&mut self, k: usize) -> usize {
         let _ = &self.consumed_probe;
         let Some(w) = &self.w else { return 0 };
@@ -366,6 +379,9 @@ impl<P: PSamp + Clone> PktIn<P> {
     }
 }
 impl<P: PSamp + Clone> InPort for PktIn<P> {
+    fn neighbour_may_act(&self) -> bool {
+        true
+    }
     fn feed(&mut self, k: usize) -> usize {
         let Some(w) = &self.w else { return 0 };
         let n = std::cmp::min(k, self.data.len() - self.pos);
@@ -435,6 +451,9 @@ impl<T: Samp> CopyOut<T> {
     }
 }
 impl<T: Samp> OutPort for CopyOut<T> {
+    fn neighbour_may_act(&self) -> bool {
+        true
+    }
     fn drain(&mut self, j: usize) -> usize {
         let Some(r) = &self.r else { return 0 };
         let (rb, tags) = r.read_buf().expect("harness: read_buf on out-port");
@@ -509,6 +528,9 @@ impl<P: PSamp + Clone> PktOut<P> {
     }
 }
 impl<P: PSamp + Clone> OutPort for PktOut<P> {
+    fn neighbour_may_act(&self) -> bool {
+        true
+    }
     fn drain(&mut self, j: usize) -> usize {
         let Some(r) = &self.r else { return 0 };
         let mut n = 0;
@@ -610,6 +632,13 @@ pub struct Call {
     pub handles_in: Vec<usize>,
     pub handles_out: Vec<usize>,
     pub windows_leaked: bool,
+    /// Number of neighbour actions (drain of an output / feed of an input) the
+    /// harness performed at yield points *inside* this call.
+    pub interposed: u32,
+    /// A commit larger than the write window the block had been handed, or a
+    /// consume larger than its read window (judged from the hook events, so it
+    /// is meaningful with neighbour activity during the call).
+    pub window_overrun: Option<String>,
 }
 impl Call {
     pub fn moved_any(&self) -> bool {
@@ -625,6 +654,67 @@ pub struct Runner {
     pub keep_calls: usize,
     nc_in_popped: Vec<usize>,
     nc_out_pushed: Vec<usize>,
+    /// C09: PRNG for neighbour activity inside work() calls; None = never.
+    pub interpose: Option<Rng>,
+    /// Arm neighbour activity for the next work() call only.
+    pub interpose_armed: bool,
+}
+
+/// Neighbour activity inside a work() call. Under MTGraph the blocks up- and
+/// downstream run concurrently, so input can arrive and output space can be
+/// freed between any two stream operations of a call. The hooks' yield points
+/// are exactly the places where that can be observed (no stream lock is held
+/// there), so the harness, which is both neighbours, acts from the yield
+/// callback on the calling thread.
+struct Interposer {
+    ins: *mut Vec<Box<dyn InPort>>,
+    outs: *mut Vec<Box<dyn OutPort>>,
+    rng: Rng,
+    acted: u32,
+}
+thread_local! {
+    static INTERPOSE: std::cell::RefCell<Option<Interposer>> = const { std::cell::RefCell::new(None) };
+}
+fn interpose_handler(_ev: &Ev) {
+    INTERPOSE.with(|c| {
+        // Yield points passed by the neighbour action itself find the cell borrowed.
+        let Ok(mut g) = c.try_borrow_mut() else { return };
+        let Some(ip) = g.as_mut() else { return };
+        if !ip.rng.chance(1, 5) {
+            return;
+        }
+        // SAFETY: set by Runner::work() for the duration of block.work() on this
+        // thread; the block does not own the ports and Runner does not touch them
+        // while the block runs.
+        let (ins, outs) = unsafe { (&mut *ip.ins, &mut *ip.outs) };
+        let amount = |rng: &mut Rng| match rng.below(4) {
+            0 => 1,
+            1 => rng.range(1, 8),
+            2 => rng.range(1, 600),
+            _ => usize::MAX / 4,
+        };
+        if !outs.is_empty() && (ins.is_empty() || ip.rng.chance(1, 2)) {
+            let o = ip.rng.below(outs.len());
+            if outs[o].neighbour_may_act() {
+                let k = amount(&mut ip.rng);
+                if outs[o].drain(k) > 0 {
+                    ip.acted += 1;
+                }
+            }
+        } else if !ins.is_empty() {
+            let i = ip.rng.below(ins.len());
+            if ins[i].neighbour_may_act() && !ins[i].is_closed() && ins[i].pending() > 0 {
+                let k = amount(&mut ip.rng);
+                if ins[i].feed(k) > 0 {
+                    ip.acted += 1;
+                }
+            }
+        }
+    });
+}
+fn interpose_end() -> u32 {
+    rec::set_yield_handler(None);
+    INTERPOSE.with(|c| c.borrow_mut().take().map(|ip| ip.acted).unwrap_or(0))
 }
 
 impl Runner {
@@ -642,6 +732,8 @@ impl Runner {
             keep_calls: 12,
             nc_in_popped: vec![0; ni],
             nc_out_pushed: vec![0; no],
+            interpose: None,
+            interpose_armed: false,
         }
     }
 
@@ -678,9 +770,19 @@ impl Runner {
         let mut named_closed = false;
         let mut msg = None;
         let mut events: Vec<Rec> = Vec::new();
+        let armed = self.interpose_armed && self.interpose.is_some();
+        self.interpose_armed = false;
+        if armed {
+            let rng = Rng::new(self.interpose.as_mut().unwrap().next());
+            let ip = Interposer { ins: &mut self.dut.ins as *mut _, outs: &mut self.dut.outs as *mut _, rng, acted: 0 };
+            INTERPOSE.with(|c| *c.borrow_mut() = Some(ip));
+            rec::set_yield_handler(Some(std::sync::Arc::new(interpose_handler)));
+        }
+        let mut interposed = 0u32;
         let block = &mut self.dut.block;
         let r = catch(|| {
             let ret = block.work();
+            let acted = if armed { interpose_end() } else { 0 };
             let evs = rec::take();
             let out = match &ret {
                 Ok(BlockRet::Again) => (Verdict::Again, None, 0, false, None),
@@ -713,10 +815,11 @@ impl Runner {
                 Err(e) => (Verdict::Err, None, 0, false, Some(format!("{e}"))),
             };
             drop(ret);
-            (out, evs)
+            (out, evs, acted)
         });
         match r {
-            Ok(((v, id, n, c, m), evs)) => {
+            Ok(((v, id, n, c, m), evs, acted)) => {
+                interposed = acted;
                 verdict = v;
                 named_id = id;
                 need = n;
@@ -728,6 +831,9 @@ impl Runner {
                 verdict = Verdict::Panic;
                 msg = Some(p);
                 self.dead = true;
+                if armed {
+                    interposed = interpose_end();
+                }
                 events = rec::take();
             }
         }
@@ -737,11 +843,28 @@ impl Runner {
         let mut moved_in = vec![0usize; ni];
         let mut moved_out = vec![0usize; no];
         let mut inner = 0usize;
+        // Last window handed to the block per stream, to bound its commits.
+        let mut wlen: std::collections::HashMap<usize, usize> = std::collections::HashMap::new();
+        let mut rlen: std::collections::HashMap<usize, usize> = std::collections::HashMap::new();
+        let mut window_overrun: Option<String> = None;
         for r in &events {
             match r.ev {
+                Ev::ReadOpen { id, start, end } if in_ids.contains(&id) => {
+                    rlen.insert(id, end - start);
+                }
+                Ev::WriteOpen { id, start, end } if out_ids.contains(&id) => {
+                    wlen.insert(id, end - start);
+                }
                 Ev::Consume { id, n, .. } => {
                     if let Some(i) = in_ids.iter().position(|&x| x == id) {
                         moved_in[i] += n;
+                        if let Some(&l) = rlen.get(&id) {
+                            if n > l && window_overrun.is_none() {
+                                window_overrun = Some(format!("input {i}: consume({n}) but the read window handed out was {l} samples"));
+                            }
+                        }
+                    } else if out_ids.contains(&id) {
+                        // the harness as downstream neighbour
                     } else if n > 0 {
                         inner += 1;
                     }
@@ -749,6 +872,13 @@ impl Runner {
                 Ev::Produce { id, n, .. } => {
                     if let Some(o) = out_ids.iter().position(|&x| x == id) {
                         moved_out[o] += n;
+                        if let Some(&l) = wlen.get(&id) {
+                            if n > l && window_overrun.is_none() {
+                                window_overrun = Some(format!("output {o}: produce({n}) but the write window handed out was {l} samples"));
+                            }
+                        }
+                    } else if in_ids.contains(&id) {
+                        // the harness as upstream neighbour
                     } else if n > 0 {
                         inner += 1;
                     }
@@ -757,6 +887,7 @@ impl Runner {
                     if let Some(i) = in_ids.iter().position(|&x| x == addr) {
                         moved_in[i] += 1;
                         self.nc_in_popped[i] += 1;
+                    } else if out_ids.contains(&addr) {
                     } else {
                         inner += 1;
                     }
@@ -765,6 +896,7 @@ impl Runner {
                     if let Some(o) = out_ids.iter().position(|&x| x == addr) {
                         moved_out[o] += 1;
                         self.nc_out_pushed[o] += 1;
+                    } else if in_ids.contains(&addr) {
                     } else {
                         inner += 1;
                     }
@@ -809,6 +941,8 @@ impl Runner {
             handles_in,
             handles_out,
             windows_leaked,
+            interposed,
+            window_overrun,
         };
         if self.last_calls.len() >= self.keep_calls {
             self.last_calls.remove(0);
@@ -1009,6 +1143,9 @@ pub fn run_schedule(
             for _ in 0..c {
                 if r.dead {
                     break;
+                }
+                if r.interpose.is_some() && rng.chance(1, 3) {
+                    r.interpose_armed = true;
                 }
                 let call = r.work();
                 done += 1;
